@@ -44,6 +44,18 @@ check('C02',
       'machine-checked proof in Coq (Q) with generated constants (T2) + correspondence run',
       'DESIGN.md 5 C02')
 
+check('C10',
+      'Coq theorems (Props/C10.v, axiom-free) about a model that mirrors concatenate check by check: for every eps >= 0, rt >= 0, '
+      'every cut list (repeats, end points, empty pieces) and every erasure pattern, concatenating the time-split pieces returns class, '
+      'length, rate, start time and channel labels of the original; pieces of another class give TypeError; a piece displaced by >= 1 '
+      'sample (spacing > eps) or >= 1 channel (rt < 1) gives ValueError. PARTIAL: frequency-axis split/concat, associativity over '
+      'groupings and the remaining rejection kinds are decided by the correspondence run + monitor only (model evaluated on the exact '
+      'observations of the very pieces given to pb.concatenate, two-level groupings included).',
+      'Trusted: Coq kernel; astropy isclose semantics as transcribed (Time.isclose atol = 2 eps days, u.isclose rtol 1e-5); '
+      'np.concatenate = list append; domain |cf|/bw <= 2^30, rates < 26 GHz.',
+      'machine-checked proof in Coq (Q) of a check-by-check model + correspondence run (vm_compute)',
+      'DESIGN.md 5 C10')
+
 ALL = [f'C{i:02d}' for i in range(1, 21)]
 
 def main():
